@@ -85,12 +85,18 @@ type world struct {
 	kt *keytab.Keytab
 }
 
-// serve sends one request through a freshly built wrapper.
-func (wd *world) serve(header *string, cookie string, sm service.SessionMgr) (o outcome) {
+type ctxKey string
+
+// handler builds one wrapper (as an application does once at start-up); the inner handler reports through a
+// per-request outcome pointer carried in the request context.
+func (wd *world) handler(sm service.SessionMgr) http.Handler {
 	inner := http.HandlerFunc(func(w http.ResponseWriter, r *http.Request) {
-		o.InnerRan = true
-		if id := goidentity.FromHTTPRequestContext(r); id != nil {
-			o.User, o.Domain, o.AuthN = id.UserName(), id.Domain(), id.Authenticated()
+		o, _ := r.Context().Value(ctxKey("outcome")).(*outcome)
+		if o != nil {
+			o.InnerRan = true
+			if id := goidentity.FromHTTPRequestContext(r); id != nil {
+				o.User, o.Domain, o.AuthN = id.UserName(), id.Domain(), id.Authenticated()
+			}
 		}
 		w.WriteHeader(200)
 	})
@@ -98,9 +104,19 @@ func (wd *world) serve(header *string, cookie string, sm service.SessionMgr) (o 
 	if sm != nil {
 		opts = append(opts, service.SessionManager(sm))
 	}
-	h := spnego.SPNEGOKRB5Authenticate(inner, wd.kt, opts...)
+	return spnego.SPNEGOKRB5Authenticate(inner, wd.kt, opts...)
+}
+
+// serve sends one request through a freshly built wrapper.
+func (wd *world) serve(header *string, cookie string, sm service.SessionMgr) outcome {
+	return wd.serveWith(wd.handler(sm), "10.0.0.1:4321", header, cookie)
+}
+
+// serveWith sends one request from the given remote address through an existing wrapper.
+func (wd *world) serveWith(h http.Handler, remote string, header *string, cookie string) (o outcome) {
 	r := httptest.NewRequest("GET", "http://host.test.gokrb5/", nil)
-	r.RemoteAddr = "10.0.0.1:4321"
+	r = r.WithContext(context.WithValue(r.Context(), ctxKey("outcome"), &o))
+	r.RemoteAddr = remote
 	if header != nil {
 		r.Header.Set("Authorization", *header)
 	}
@@ -299,6 +315,8 @@ func Run(c *engine.Ctx) {
 
 	// (iii) request sequences with session managers
 	sequences(c, wd, &evals)
+	// (iv) two concurrent requests through one wrapper, every interleaving at the session store
+	concurrent(c, wd, &evals)
 
 	c.Add("evaluations", evals)
 	c.Add("states", evals)
@@ -428,7 +446,7 @@ func (m *memSessions) Get(r *http.Request, k string) ([]byte, error) {
 }
 
 func sequences(c *engine.Ctx, wd *world, evals *int64) {
-	events := []string{"fresh", "replay", "none", "garbage", "cookie", "forged-cookie"}
+	events := []string{"fresh", "replay", "replay-sname-case-flipped", "none", "garbage", "cookie", "forged-cookie"}
 	managers := []string{"none", "memory", "failing-new", "failing-get"}
 	depth := 4
 	var rec func(seq []string)
@@ -439,7 +457,12 @@ func sequences(c *engine.Ctx, wd *world, evals *int64) {
 		if mgr != "none" {
 			sm = &memSessions{store: map[string][]byte{}, failNew: mgr == "failing-new", failGet: mgr == "failing-get"}
 		}
-		var lastTok *string
+		var smi0 service.SessionMgr
+		if sm != nil {
+			smi0 = sm
+		}
+		h := wd.handler(smi0) // one wrapper for the whole sequence, as in a running server
+		var lastTok, lastTokCase *string
 		cookie := ""
 		established := false // a session cookie issued after an accepted request exists
 		nfresh := 0
@@ -459,12 +482,22 @@ func sequences(c *engine.Ctx, wd *world, evals *int64) {
 				}
 				hdr = neg(negInit([][]int{oidKRB5}, krb5Tok([]byte{1, 0}, m.APReq), true))
 				lastTok = hdr
+				// the same token with one letter of the ticket's clear-text service name in another case
+				csc := cs
+				csc.TktSName = []string{"HTTP", "Host.test.gokrb5"}
+				mc := wd.w.MintLike(csc, m)
+				lastTokCase = neg(negInit([][]int{oidKRB5}, krb5Tok([]byte{1, 0}, mc), true))
 				legitHeader = true
 			case "replay":
 				if lastTok == nil {
 					return
 				}
 				hdr = lastTok
+			case "replay-sname-case-flipped":
+				if lastTokCase == nil {
+					return
+				}
+				hdr = lastTokCase
 			case "garbage":
 				hdr = sp("Negotiate Z2FyYmFnZQ==")
 			case "cookie":
@@ -475,11 +508,7 @@ func sequences(c *engine.Ctx, wd *world, evals *int64) {
 			case "forged-cookie":
 				ck = "sid=sess999"
 			}
-			var smi service.SessionMgr
-			if sm != nil {
-				smi = sm
-			}
-			o := wd.serve(hdr, ck, smi)
+			o := wd.serveWith(h, "10.0.0.1:4321", hdr, ck)
 			recd := map[string]interface{}{"sequence": seq, "step": i, "session_manager": mgr}
 			if o.Panic != "" {
 				c.Violate("sequences", "panic:sequence:"+ev, map[string]interface{}{"panic": o.Panic}, recd)
